@@ -140,6 +140,9 @@ def tee_case(draw, tier):
             c["kw"]["delimiter"] = draw(st.sampled_from([";", "|", ","]))
         if draw(st.booleans()):
             c["kw"]["lineterminator"] = draw(st.sampled_from(["\n", "\r\n"]))
+        # a csv dialect given by name, alone or next to other arguments: tee and to* must read it the same way
+        if draw(st.integers(0, 2)) == 0:
+            c["kw"]["dialect"] = draw(st.sampled_from(["unix", "excel", "excel-tab"]))
     elif fmt == "pickle":
         c["kw"] = {"write_header": draw(st.booleans()), "protocol": draw(st.sampled_from([-1, 0, 2]))}
     elif fmt == "text":
